@@ -14,6 +14,8 @@ mod sim;
 mod c05_link;
 mod c06_arp;
 mod c13_barrier;
+mod c16_routing;
+mod c20_dns;
 mod c04_udp;
 mod c02_sockets;
 mod ndl;
@@ -48,12 +50,14 @@ fn parts_for(id: &str) -> Option<Vec<Part>> {
         "C02" => vec![part(c02_sockets::StreamSockets { multi_thread: false }, 20_000, 600_000), part(c02_sockets::StreamSockets { multi_thread: true }, 640, 20_000)],
         "C03" => vec![part(tcb_checks::OpenClose, 40_000, 3_000_000)],
         "C12" => vec![part(c12_modcmp::ModCmpLaws, 200_000, 4_000_000), part(tcb_checks::IsnIndependence, 20_000, 1_500_000)],
+        "C16" => vec![part(c16_routing::Routing, 20_000, 600_000)],
         "C17" => vec![part(tcb_checks::HostileSegments, 60_000, 4_000_000)],
         "C13" => vec![part(c13_barrier::BarrierAndStatus, 6_000, 300_000)],
         "C14" => vec![part(codecs::DecodersNoPanic, 1_000_000, 20_000_000), part(ndl::NdlNoPanic, 60_000, 3_000_000)],
         "C19" => vec![part(ndl::NdlRoundTrip, 40_000, 2_000_000)],
         "C15" => vec![part(c15_ipgen::IpGenHistories, 300_000, 6_000_000)],
         "C18" => vec![part(codecs::Codecs, 400_000, 8_000_000), part(codecs::CorruptionRejected, 400_000, 8_000_000)],
+        "C20" => vec![part(c20_dns::DnsResolution, 20_000, 600_000)],
         _ => return None,
     })
 }
